@@ -799,6 +799,8 @@ func runC09(c *Ctx) {
 			return strings.HasPrefix(id, "pkg/storage.Store") || id == "io/ioutil.ReadAll" || strings.HasPrefix(id, "gopkg.in/yaml.v2.") || id == "pkg/core.ListBundles" || id == "pkg/core.RepoExists" || id == "pkg/core.downloadBundleDescriptor"
 		}, nil)
 	}
+	// RenameRepo iterates ListBundlesApply / ListLabelsApply: a dropped listing or apply error lets it delete the old repo
+	checkListApplySiblings(c, "rename.listing-errors")
 }
 
 // ---------------------------------------------------------------------------------------------------
@@ -1089,4 +1091,8 @@ func runC10(c *Ctx) {
 		badA, nA, nBB := gb.neverAfter(isDescDel, isListDel)
 		c.check(nA == 1 && nBB >= 1 && len(badA) == 0, "delete-loop.descriptor-last", g.ID, p.Pos(g.Decl.Pos()), "file lists are deleted before the descriptor", "DeleteBundle can delete file lists after (or without) the descriptor")
 	}
+	// squash decides what to delete from listings: a listing that silently loses an item or an error deletes too much
+	checkListApplySiblings(c, "listing.apply-errors")
+	checkSilentSkipOnlyNotExists(c, c.P.BodyOf(c.P.Func("pkg/core.getLabelAsync")), "listing.label-skip-only-not-exists", false)
+	checkSilentSkipOnlyNotExists(c, c.P.BodyOf(c.P.Func("pkg/core.getBundleAsync")), "listing.bundle-skip-only-not-exists")
 }
